@@ -27,7 +27,7 @@ def specs(tier):
         out.append(XSpec("infer[disable_genes=%d,disable_transcripts=%d,third line=%s,second line is %s,subfeature=%s]" % (dg, dt, l3, t2, sub),
                          H, "cond_infer", "reach_infer", timeout=900 if tier == "quick" else 2400,
                          env=dict(VB_DG=dg, VB_DT=dt, VB_L3=l3, VB_T2=t2, VB_SUB=sub),
-                         bounds=dict(lines="exon(t1,g1,2..2|3) + one line of type %s with transcript_id in {t1,t2}, gene_id in {g1,g2}, start in {1,3}, length 1|2%s"
+                         bounds=dict(lines="exon(t1,g1,2..2|5) + one line of type %s with transcript_id in {t1,t2}, gene_id in {g1,g2}, start in {1,3}, length 1|2%s"
                                      % (t2, "" if l3 == "none" else " + a fixed %s line" % l3),
                                      flags="disable_infer_genes=%d, disable_infer_transcripts=%d" % (dg, dt), subfeature=sub)))
     return out
